@@ -16,6 +16,18 @@ def srcFin (pc : SrcPc) : Bool :=
   | .finalize | .camStop | .done => true
   | _ => false
 
+/-- the source is inside an iteration of its loop, before the frame is in the buffer -/
+def srcInLoop (pc : SrcPc) : Bool :=
+  match pc with
+  | .getShape | .wmapLock | .wmapWait | .wmapAsleep | .wmapWoken | .afterMap | .getFrame => true
+  | _ => false
+
+/-- the sink's error path, after it has asked the source to stop -/
+def snkErr (pc : SnkPc) : Bool :=
+  match pc with
+  | .errAccLock | .errAccNotify | .errAfterAcc | .errUnmapLock | .errUnmapNotify => true
+  | _ => false
+
 /-- … after all `max_frame_count` frames -/
 def srcComplete (st : Stream) : Prop := srcFin st.src.pc = true ∧ st.src.iframe = st.maxFrames
 
@@ -23,19 +35,31 @@ structure DEnd (s : Nat) (st : Stream) (cl : Client) : Prop where
   /-- a stop request or a refused commit means the run was disturbed -/
   stopping : st.srcStopping = true → st.sto.disturbed = true ∨ srcFin st.src.pc = true
   dropped : st.sto.dropped = true → st.sto.disturbed = true
-  /-- the source never overshoots -/
-  bound : st.src.pc ≠ .done → st.src.iframe ≤ st.maxFrames
+  refusing : (cv st.sinkCh).acc = false → st.sto.disturbed = true ∨ (1 ≤ stage cl.pc s ∧ stage cl.pc s ≤ 2)
+  /-- the source never overshoots, and leaves its loop only when told to or when it has all its frames -/
+  bound : st.src.pc ≠ .done → st.sto.disturbed = true ∨ st.src.iframe ≤ st.maxFrames
+  inloop : srcInLoop st.src.pc = true → st.sto.disturbed = true ∨ st.src.iframe < st.maxFrames
+  fin : (st.src.pc = .finalize ∨ st.src.pc = .camStop) → st.sto.disturbed = true ∨ st.src.iframe = st.maxFrames
   /-- the chain source → filter → sink -/
   flt_stop : st.fltStopping = true → (1 ≤ stage cl.pc s ∧ stage cl.pc s ≤ 4) ∨ st.sto.disturbed = true ∨ srcComplete st
   flt_flush : st.flt.flush = true → st.flt.pc ≠ .done → st.sto.disturbed = true ∨ srcComplete st
   flt_done : st.flt.pc = .done → st.sto.disturbed = true ∨ srcFin st.src.pc = true
   snk_stop : st.snkStopping = true → (1 ≤ stage cl.pc s ∧ stage cl.pc s ≤ 3) ∨ (st.flt.pc = .done ∧ (st.sto.disturbed = true ∨ srcComplete st))
   snk_flush : st.snk.flush = true → st.snk.pc ≠ .done → st.sto.state = .running → st.snkStopping = true
-  /-- between the creation of the filter and of the source nobody asks the filter to stop -/
-  window : 6 ≤ stage cl.pc s → st.fltStopping = false ∧ st.flt.flush = false ∧ st.flt.pc ≠ .done ∧ st.snkStopping = false
+  /-- inside `acquire_start` of this stream the flags are fresh: nobody asks the new filter or sink to stop before the source exists -/
+  w2 : 2 ≤ stage cl.pc s → st.sto.drained = false
+  w4 : 4 ≤ stage cl.pc s → st.snkStopping = false
+  w5 : 5 ≤ stage cl.pc s → st.fltStopping = false
+  w6 : 6 ≤ stage cl.pc s → st.flt.flush = false ∧ st.flt.pc ≠ .done
+  stop8 : stage cl.pc s = 8 → st.srcStopping = true → st.sto.disturbed = true
+  /-- `acquire_abort` marks the run before it refuses writes -/
+  abort_dist : (cl.pc = .accLock s false 1 ∨ cl.pc = .accNotify s 1) → st.sto.disturbed = true
   /-- an empty read in the final flush means everything was consumed -/
   empty_read : st.snk.flush = true → st.sto.state = .running → (st.snk.pc = .rmapNotify ∨ st.snk.pc = .afterMap) → st.snk.len = 0 →
       st.sto.disturbed = false → (cv st.sinkCh).i0 = (cv st.sinkCh).total
+  /-- the sink's error path belongs to a disturbed run; `drained` is recorded at the very end of the sink's life -/
+  err_disturbed : snkErr st.snk.pc = true → st.sto.disturbed = true
+  drained_pc : st.sto.drained = true → st.snk.pc = .stoStop ∨ st.snk.pc = .exit ∨ st.snk.pc = .done
   /-- **drained**: everything committed has been appended, and the source had delivered all its frames -/
   drained : st.sto.drained = true → st.sto.disturbed = false → st.sto.clean = true →
       st.sto.appended = (cv st.sinkCh).total ∧ srcComplete st ∧ st.src.cur = none
